@@ -1,4 +1,4 @@
-import LiquidVerif.Lemmas.Translate
+import LiquidVerif.Lemmas.TranslateTrim
 /-!
 # C26 — null translations leave message text intact
 
@@ -201,9 +201,26 @@ theorem tag_format_is_expansion_partial (w : Char → Bool) (hw : WordClass w) (
   intro n hmem
   simp [varsEnv, findVarsTag_messageText w hw ps hn, hmem]
 
-/-- The full-strength statement is false for the code as it is: the block `{{ a-b }}` makes
-`_format_message` raise `KeyError` (known finding `tag|var-not-word|raises-KeyError`). -/
+/-- The full-strength statement is false for the code as it is, even with the widened name class
+`[^()%]` of the fixed tag: a variable reached by bracket notation whose name contains a parenthesis,
+`{{ ['a)b'] }}`, makes `_format_message` raise `KeyError` (known finding
+`tag|var-paren-percent|raises-KeyError`).  With the `\w` class of the unfixed tag the same happens for
+`{{ a-b }}` (`tag_format_counterexample_word`). -/
 theorem tag_format_counterexample :
+    ¬ (∀ (val : Str → Str) (ps : List Piece),
+        tagFormatText tagNameChar val [] (messageText ps) = .ok (expandPieces val ps)) := by
+  intro h
+  have := h (fun _ => ['V']) [.var ['a', ')', 'b']]
+  have hmsg : messageText [.var ['a', ')', 'b']] = ['%', '(', 'a', ')', 'b', ')', 's'] := by decide
+  have hvars : findVarsTag tagNameChar ['%', '(', 'a', ')', 'b', ')', 's'] = [] := by decide
+  have hdir : directive (varsEnv [] (fun _ => ['V']) []) false ['(', 'a', ')', 'b', ')', 's'] = .error .keyError := by
+    rfl
+  rw [hmsg] at this
+  unfold tagFormatText format at this
+  rw [hvars, formatAux_directive_error _ _ _ hdir] at this
+  cases this
+
+theorem tag_format_counterexample_word :
     ¬ (∀ (val : Str → Str) (ps : List Piece),
         tagFormatText asciiWord val [] (messageText ps) = .ok (expandPieces val ps)) := by
   intro h
@@ -216,6 +233,13 @@ theorem tag_format_counterexample :
   unfold tagFormatText format at this
   rw [hvars, formatAux_directive_error _ _ _ hdir] at this
   cases this
+
+/-- after the fix a hyphenated identifier is an admissible name -/
+example : WordNames tagNameChar [.content ['x'], .var ['a', '-', 'b']] := by
+  intro n hn
+  simp only [varNames, List.mem_cons, List.not_mem_nil, or_false] at hn
+  subst hn
+  exact ⟨by decide, by decide⟩
 
 /-! ## Plural choice -/
 
@@ -300,6 +324,63 @@ theorem translate_tag_output_partial (w ws : Char → Bool) (hw : WordClass w) (
   by_cases hi : i = 1
   · simp only [hi, if_true]; exact tag_format_is_expansion_partial w hw val [] singular hs
   · simp only [hi, if_false]; exact tag_format_is_expansion_partial w hw val [] plural hp
+
+/-! ## The translate tag with `trim_messages` (the default) -/
+
+theorem expandPieces_piecesOf (val : Str → Str) (as : List Atom) :
+    expandPieces val (piecesOf as) = expandAtoms val as := by
+  induction as with
+  | nil => rfl
+  | cons a r ih => cases a <;> simp [piecesOf, expandPieces, expandAtoms, ih]
+
+/-- the atom view of a block agrees with the piece view -/
+theorem expandAtoms_atomsOf (val : Str → Str) (ps : List Piece) :
+    expandAtoms val (atomsOf ps) = expandPieces val ps := by
+  induction ps with
+  | nil => rfl
+  | cons p ps ih =>
+    cases p with
+    | content s =>
+      simp only [atomsOf, expandPieces]
+      induction s with
+      | nil => simpa using ih
+      | cons c s' ih2 => simp [expandAtoms, ih2]
+    | var n => simp [atomsOf, expandPieces, expandAtoms, ih]
+
+/-- **tag_format_trimmed_partial** ("the tag also collapses whitespace runs"): with `trim_messages` on, the
+message text is stripped and every whitespace run containing a newline becomes one space *before* it is
+formatted; the output is the block's atoms — literal characters and `{{ name }}` placeholders —
+trimmed by exactly that rule (`trimAtoms`, a placeholder never counting as whitespace), literal `%` intact and
+variables by value (values themselves are not trimmed).  For every `\s` class that excludes `%`, `(`, `)`,
+`s`.  *Partial*: variable names are words of the name class and contain no whitespace. -/
+theorem tag_format_trimmed_partial (w ws : Char → Bool) (hw : WordClass w) (hs : SpaceClass ws)
+    (val : Str → Str) (selfStr : Str) (ps : List Piece) (hn : WordNames w ps)
+    (hnw : ∀ n ∈ varNames ps, ∀ c ∈ n, ws c = false) :
+    tagFormatText w val selfStr (trimMessage ws (messageText ps))
+      = .ok (expandAtoms val (trimAtoms ws (atomsOf ps))) := by
+  have hno : NoWsNames ws (atomsOf ps) := fun n hm c hc => hnw n ((ph_mem_atomsOf ps n).mp hm) c hc
+  rw [messageText_eq_flatMap, trimMessage_flatMap hs _ hno, ← messageText_piecesOf]
+  have hwn : WordNames w (piecesOf (trimAtoms ws (atomsOf ps))) := by
+    intro n hm
+    have := (varNames_piecesOf _ n).mp hm
+    exact hn n ((ph_mem_atomsOf ps n).mp (ph_mem_trimAtoms this))
+  rw [tag_format_is_expansion_partial w hw val selfStr _ hwn, expandPieces_piecesOf]
+
+/-- the `translate` tag as shipped (trimming on), integer count -/
+theorem translate_tag_output_trimmed_partial (w ws : Char → Bool) (hw : WordClass w) (hs : SpaceClass ws)
+    (val : Str → Str) (singular plural : List Piece) (i : Int)
+    (hsn : WordNames w singular) (hpn : WordNames w plural)
+    (hsw : ∀ n ∈ varNames singular, ∀ c ∈ n, ws c = false)
+    (hpw : ∀ n ∈ varNames plural, ∀ c ∈ n, ws c = false) :
+    translateTag w ws val true singular (some plural) (some (.int i))
+      = .ok (expandAtoms val (trimAtoms ws (atomsOf (if i = 1 then singular else plural)))) := by
+  unfold translateTag bindE
+  simp only [blockText, Option.map_some, plural_choice_tag, if_true]
+  by_cases hi : i = 1
+  · simp only [hi, if_true]; exact tag_format_trimmed_partial w ws hw hs val [] singular hsn hsw
+  · simp only [hi, if_false]; exact tag_format_trimmed_partial w ws hw hs val [] plural hpn hpw
+
+example : SpaceClass isPySpace := isPySpace_spaceClass
 
 /-! ## Non-vacuity -/
 
